@@ -24,10 +24,18 @@
      fast-float-parsing, inside the exactness window otherwise — as the property states);
    * `C13_fixpoint` — under the same conditions printing the re-read value gives the same text again;
    * `C13_reparse_next` — the same in the middle of an input.
+   * accuracy clause for floats that are not exactly readable (LexprModel/Proofs/FloatApproxImage*.lean,
+     FloatApproxFin.lean; imported here): `C13_reparse_approx(_fin)` — the same with `approxEq` (same shape,
+     floats within the C05 accuracy) in place of equality and ryu merely specified; every float the parser
+     returns is finite (`fromTrait_floats_finite`).  `C13_float_cycle` (kernel-checked, confirmed on the
+     real crate): in the default build `11e23` -> print -> parse alternates between two neighbouring
+     doubles for ever, each step within the accuracy — which is why the property asks for the fixed point
+     only "when every float is exactly representable by the reader".
   Proved here: the option-level facts that make the statement well-posed for every parser option set.
 -/
 import LexprModel.Props.C02
 import LexprModel.Proofs.ImageExamples
+import LexprModel.Proofs.FloatApproxImage2
 namespace Lexpr
 namespace Spec
 
